@@ -270,8 +270,12 @@ func (n *Net) grantWrite(t *Task) string {
 	b := t.req.buf
 	if f, ok := c.WriteFaults[idx]; ok {
 		acc := f.Accept
-		if acc > len(b) {
-			acc = len(b)
+		// a failed write never reports all bytes as written
+		if acc >= len(b) {
+			acc = len(b) - 1
+		}
+		if acc < 0 {
+			acc = 0
 		}
 		b = b[:acc]
 		t.resp.n = acc
